@@ -1085,8 +1085,24 @@ def rule_X6(F, R, parts=('coverage', 'labels')):
                                     for bnd in walk_pat_bindings(pp_['subs'][0]['pat']): loopsrc[bnd] = src
                             break
             got = {}
+            in_table_loop = set()
+            # `for (label, child) in [("L", l), ("R", r)] { edges.push((i, label.to_string(), position(child))) }`: the pairs are spelt out in the array
+            for fm in walk(a['body']):
+                if fm['k'] == 'Match' and fm.get('source') == 'ForLoopDesugar':
+                    sc = strip(fm['scrutinee'])
+                    arr = strip(sc['args'][0]) if sc['k'] == 'Call' and sc['args'] else None
+                    while arr is not None and arr['k'] == 'Call' and arr['args'] and (callee_name(arr) or '').split('::')[-1] in ('iter', 'into_iter'): arr = strip(arr['args'][0])
+                    if arr is not None and arr['k'] == 'Array' and arr['fields'] and all(strip(f)['k'] == 'Tuple' and len(strip(f)['fields']) == 2 for f in arr['fields']):
+                        pairs = []
+                        for f in arr['fields']:
+                            l_, c_ = strip(f)['fields']
+                            l_ = strip(l_); cv = root_var(c_)
+                            if l_['k'] == 'Literal' and l_.get('lit') == 'Str' and cv: pairs.append((l_['value'], cv))
+                        if len(pairs) == len(arr['fields']) and any(is_edge_push(x) for x in walk(fm)):
+                            for l_, cv in pairs: got[l_] = {cv}
+                            for x in walk(fm): in_table_loop.add(id(x))
             for e in walk(a['body']):
-                if not is_edge_push(e): continue
+                if not is_edge_push(e) or id(e) in in_table_loop: continue
                 tup = [x for x in walk(e) if x['k'] == 'Tuple' and len(x['fields']) == 3]
                 if not tup: continue
                 lit = ''
